@@ -288,8 +288,136 @@ def bv_random(rng, bs, length):
         elif op in ("ablk", "andb", "orb", "xorb"):
             if op == "ablk" and rng.random() < 0.4: op = "ablkc"
             hist.append("%s:%d:%d" % (op, i, rng.randrange(n)))
-        elif op in ("shl", "shr"): hist.append("%s:%d:%d" % (op, i, rng.choice([0, 1, bs - 1, bs, bs + 1, rng.randrange(bs + 2)])))
+        elif op in ("shl", "shr"): hist.append("%s:%d:%d" % (op, i, rng.choice([0, 1, bs - 1, bs, bs + 1, 1000, rng.randrange(bs + 2)])))
     return "bv %d " % bs + " ".join(hist)
+
+
+# ----------------------------------------------------------------------------- cross-cutting variation (audit dimensions 1-6)
+# A generated history is replayed on a tiny abstract simulator (plain Python lists = the spec) so that operations can be rewritten into
+# forms whose ARGUMENT ALIASES THE RECEIVER (an element / key / value of the container itself; the token carries the value the spec
+# reads before the write), copies, self-swap / self-assignment, the other object as receiver, default-argument spellings, and the
+# instance-tracking element type (param + 1000, for SLList param 2).  Abstractly these are the same operations.
+
+def vary_al(rng, case):
+    t = case.split(); N = int(t[1]); l = []; out = []
+    for op in t[2:]:
+        a = op.split(":")
+        if a[0] == "pb":
+            if l and rng.random() < 0.2:
+                i = rng.randrange(len(l)); op = "pba:%d:%d" % (i, l[i]); l.append(l[i])
+            else: l.append(int(a[1]))
+        elif a[0] == "er": l = l[int(a[1]) + 1:]
+        elif a[0] == "cl": l = []
+        elif a[0] == "set":
+            i = int(a[1])
+            if len(l) > 1 and rng.random() < 0.4:
+                j = rng.randrange(len(l)); op = "seta:%d:%d:%d" % (i, j, l[j]); l[i] = l[j]
+            else: l[i] = int(a[2])
+        out.append(op)
+        if rng.random() < 0.06: out.append(rng.choice(["cpy", "cpyd", "cpya"]))
+    if N in (0, 1, 2, 3, 7) and rng.random() < 0.35: N += 1000
+    return "al %d " % N + " ".join(out)
+
+
+def vary_sl(rng, case):
+    t = case.split(); L = [[], []]; out = []
+    for op in t[2:]:
+        a = op.split(":"); i = int(a[1]) if len(a) > 1 else 0; l = L[i]
+        if a[0] in ("pb", "pf", "mend"):
+            v = int(a[2])
+            if a[0] != "mend" and l and rng.random() < 0.25:
+                k = rng.randrange(len(l)); v = l[k]; op = "%se:%d:%d:%d" % (a[0], i, k, v)
+            if a[0] == "pf": l.insert(0, v)
+            else: l.append(v)
+        elif a[0] == "pop": l.pop(0)
+        elif a[0] == "cl": L[i] = []
+        elif a[0] == "mins":
+            pos, v = int(a[2]), int(a[3])
+            if l and rng.random() < 0.3:
+                k = rng.randrange(len(l)); v = l[k]; op = "minse:%d:%d:%d:%d" % (i, pos, k, v)
+            l.insert(pos, v)
+        elif a[0] == "mrem": l.pop(int(a[2]))
+        elif a[0] == "iaft": l.insert(int(a[2]) + 1, int(a[3]))
+        elif a[0] == "idel": l.pop(int(a[2]) + 1)
+        elif a[0] == "asg": L[i] = list(L[1 - i])
+        elif a[0] == "cpy": L[1 - i] = list(L[i])
+        out.append(op)
+    return "sl %d " % (2 if rng.random() < 0.35 else 0) + " ".join(out)
+
+
+def vary_rv(rng, case):
+    t = case.split(); n = int(t[1]); V = [[], []]; out = []
+    for op in t[2:]:
+        a = op.split(":"); i = int(a[1]) if len(a) > 1 and a[0] != "swap" else 0; v = V[i]
+        if a[0] in ("pb", "pbm", "eb"):
+            x = int(a[2]); known = [k for k, e in enumerate(v) if e is not None]
+            if known and rng.random() < 0.25:
+                k = rng.choice(known); x = v[k]; op = "%s:%d:%d:%d" % (rng.choice(["pbe", "ebe"]), i, k, x)
+            v.append(x)
+        elif a[0] == "pop":
+            if v: v.pop()
+        elif a[0] == "rsz":
+            k = int(a[2]); V[i] = v[:k] + [None] * (k - len(v))
+        elif a[0] == "cl": V[i] = []
+        elif a[0] == "set": v[int(a[2])] = int(a[3])
+        elif a[0] == "fill":
+            x = int(a[2]); known = [k for k, e in enumerate(v) if e is not None]
+            if known and rng.random() < 0.5:
+                k = rng.choice(known); x = v[k]; op = "fille:%d:%d:%d" % (i, k, x)
+            V[i] = [x] * len(v)
+        elif a[0] == "mk": V[i] = [int(a[3])] * int(a[2])
+        elif a[0] == "mkd": V[i] = [0] * int(a[2])
+        elif a[0] == "from": V[i] = [int(x) for x in a[2].split(",")] if len(a) > 2 and a[2] else []
+        elif a[0] == "il": V[i] = list(range(1, int(a[2]) + 1))
+        elif a[0] == "swap":
+            V = [V[1], V[0]]
+            if rng.random() < 0.5: op = "swapr:%d" % rng.randrange(2)
+        elif a[0] == "asg": V[i] = list(V[1 - i])
+        out.append(op)
+        if rng.random() < 0.08:
+            j = rng.randrange(2); out.append("%s:%d:%d" % (rng.choice(["swaps", "asgs", "cpyc"]), j, len(V[j])))
+    if n in (1, 2, 3, 5) and rng.random() < 0.35: n += 1000
+    return "rv %d " % n + " ".join(out)
+
+
+def vary_lru(rng, case):
+    t = case.split(); nk = int(t[1]); l = []; out = []       # l: recency list of [key, value]
+    def front(k, v): 
+        nonlocal l
+        l = [[k, v]] + [e for e in l if e[0] != k]
+    for op in t[2:]:
+        a = op.split(":")
+        if a[0] == "ins":
+            k, v = int(a[1]), int(a[2])
+            if l and rng.random() < 0.25:
+                k2, v = rng.choice(l); op = "insa:%d:%d:%d" % (k, k2, v)
+            front(k, v)
+        elif a[0] in ("touch", "ins1"):
+            k = int(a[1]); hit = [e for e in l if e[0] == k]
+            if hit:
+                if rng.random() < 0.4: op = "toucha:%d" % k
+                front(k, hit[0][1])
+        elif a[0] == "popf": l = l[1:]
+        elif a[0] == "popb": l = l[:-1]
+        elif a[0] == "rsz": l = l[:int(a[1])]
+        elif a[0] == "cl": l = []
+        out.append(op)
+        if rng.random() < 0.06: out.append(rng.choice(["cpy", "cpyd", "cpya"]))
+    if rng.random() < 0.35: nk += 1000
+    return "lru %d " % nk + " ".join(out)
+
+
+def vary_bv(rng, case):
+    t = case.split(); out = []
+    for op in t[2:]:
+        a = op.split(":")
+        if a[0] == "rsz" and a[2] == "0" and rng.random() < 0.5: op = "rszd:%s" % a[1]
+        elif a[0] == "set" and a[3] == "1" and rng.random() < 0.5: op = "set1:%s:%s" % (a[1], a[2])
+        out.append(op)
+    return " ".join(t[:2] + out)
+
+
+VARY = {"al": vary_al, "sl": vary_sl, "rv": vary_rv, "lru": vary_lru, "bv": vary_bv}
 
 
 def gen(ctx):
@@ -329,6 +457,15 @@ def gen(ctx):
     for bs in BV_BS:
         for j in range(30 * R):
             cases.append(bv_random(rng, bs, rng.choice([10, 40, 100])))
+    # every random walk additionally in its varied form (aliasing arguments, copies, roles, defaults, element-type family)
+    vr = ctx.rng("vary")
+    base = cases[ncorpus + nexh:]
+    cases += [VARY[c.split(" ", 1)[0]](vr, c) for c in base]
+    for bs in (64, 65):                                  # word boundaries of std::bitset / vector<bool>
+        for j in range(6 * R):
+            cases.append(vary_bv(vr, bv_random(rng, bs, rng.choice([10, 40]))))
+    for j in range(10 * R):                              # capacity 0
+        cases.append(rv_random(rng, 0, rng.choice([5, 20])))
     # rejection stream: push_back / emplace_back on an exactly full ReservedVector (documented precondition size() < n; the driver is
     # built with CHECK_RESERVEDVECTOR, so the real code must refuse by assert; the model must report UB, the spec a violated precondition)
     for n in RV_N:
@@ -473,6 +610,9 @@ def judge(case, impl, model_line):
 def shrink(ctx, impls, model, case, sig):
     """delta debugging on the op list with the impl in the loop: drop ops while the same signature still fails"""
     t = case.split(); head, ops = t[:2], t[2:]
+    ALIAS = ("pba", "seta", "pbe", "pfe", "minse", "ebe", "fille", "insa", "toucha", "swaps", "asgs", "cpyc")
+    if any(o.split(":")[0] in ALIAS for o in ops):
+        return case          # these tokens carry values / sizes that depend on the preceding ops: dropping ops would make the history inconsistent
     def fails(ops2):
         c = " ".join(head + ops2)
         mo = V.run_cases(ctx, [model], [c], tag="shr_m", timeout=60)
